@@ -11,12 +11,12 @@ notes = {
  "C07": ("create-ask / create-bid requests within k deviations of a valid baseline from every reachable state under precision/fee/marker/attribute configurations: accepted <=> reference admission predicate", "6/C07"),
  "C08": ("approve request product from every reachable state + state invariant (approver amount = remaining size) blamed on the breaking transition", "6/C08"),
  "C09": ("fee-focused closures (ties, zero, whole): creation fee and ask fee exact, held-fee pro-rata state invariant, closing bids release their whole fee", "6/C09"),
- "C10": ("closures under all 27 marker assignments: every emitted message checked against the marker table served", "6/C10"),
+ "C10": ("closures under all 27 assignments of {restricted, unrestricted marker, no marker} to base / convertible / quote (plus restricted markers that list required attributes, several quote and convertible denominations, base listed as quote): every emitted message checked against the marker table served", "6/C10"),
  "C11": ("complete storage diff around every accepted transition + per-order immutability + book consistency invariants", "6/C11"),
  "C12": ("modify-contract request product (<= k field groups) from every state of a small book whose configuration itself varies", "6/C12"),
  "C13": ("exhaustive enumeration of instantiate messages (precision 0..19 x increments x field shapes) + integrality closures per accepted (precision, increment)", "6/C13"),
- "C14": ("every state of a closure and its old-format twins x stored versions x migrate messages, applied twice: gate, full-store diff, idempotence", "6/C14"),
- "C15": ("differential: migrate(old-format twin) vs migrate(native) on every reachable book with event-log history, plus all event logs up to a length bound", "6/C15"),
+ "C14": ("every state of a closure and its old-format twins x stored versions x migrate messages, applied twice: gate, full-store diff, idempotence; plus books crowded with up to 257 (thorough 1001) old-format bids", "6/C14"),
+ "C15": ("differential: migrate(old-format twin) vs migrate(native) on every reachable book with event-log history, plus all event logs up to a length bound, plus books crowded with up to 257 (thorough 1001) old-format bids", "6/C15"),
  "C16": ("query x id-spelling product on every reachable state: store unchanged, answer = raw entry, = cancel payout", "6/C16"),
  "C17": ("attributes of every accepted response compared with flows and book; attribute-driven shadow book stepped and compared at every transition", "6/C17"),
 }
@@ -32,7 +32,7 @@ for p in sorted(notes):
         "replay_cmd_template": "./check replay {path}",
         "engine": "atsmc",
         "level_claimed": {"category": "model_checking", "text": notes[p][0] + ". Exhaustive within the stated alphabets (DESIGN.md section 5 and 9); the real entry points are executed on every transition, so there is no model-to-code gap.", "design_ref": "DESIGN.md section " + notes[p][1]},
-        "level_note": "trusted base: the harness's Storage/Querier/MockApi environment, the native (not wasm) build with overflow checks, the exact-rational reference model; bounds: <= 2 asks and <= 2 bids open at once, values from the scenario alphabets, marker/attribute tables constant during a history",
+        "level_note": "trusted base: the harness's Storage/Querier/MockApi environment, the native (not wasm) build with overflow checks, the exact-rational reference model; bounds: <= 2 asks and <= 2 bids open at once in the quick tier (three on one side in thorough books and in books carried over from an older version; migration books up to 1001 bids), values from the scenario alphabets and the value sweep (amounts up to 2^94, rates and prices up to 28 decimal places), marker/attribute tables constant during a history",
         "technique": "explicit-state model checking of the real contract entry points (parallel BFS to fixpoint, exact state de-duplication, lock-step reference oracle)",
     })
 na = [{"property_id": p, "reason": "check not built yet (in progress); the technique applies, see DESIGN.md section " + notes[p][1]} for p in sorted(notes) if p not in built]
